@@ -46,9 +46,11 @@ StateChecks == << <<"ComponentConsistent", ComponentConsistent'>>, <<"LocoConsis
                   <<"TrainStatic", TrainStatic'>> >>
 CallChecks == StateChecks \o << <<"Atomic", Atomic'>>, <<"OptionSemantics", OptionSemantics'>>, <<"Frame", Frame'>> >>
 Built(o) == IF mode' = "loco" /\ o.tstatic >= 0 THEN 1 ELSE 0
-(* the harness marks records holding a value that is not a multiple of 1/64: relations are not *)
-(* evaluated there (only the seeded long walks can leave the lattice)                           *)
-ReportIf(exact, key, names) == IF exact THEN Report(key, names) ELSE UNCHANGED <<viol, cnt>>
+(* the harness logs a value that is not a multiple of 1/64 as the sentinel Xq and marks the record.  *)
+(* Component relations are stated so that they hold with Xq fields too (getter-level clauses), and  *)
+(* are always evaluated; locomotive records with an off-grid value (only the seeded long walks can  *)
+(* produce them) are counted, not judged                                                            *)
+ReportIf(exact, key, names) == IF exact \/ mode' = "comp" THEN Report(key, names) ELSE UNCHANGED <<viol, cnt>>
 
 Begin == /\ Rec[l].ev = "begin"
          /\ stats' = [stats EXCEPT !.cases = @ + 1]
